@@ -51,6 +51,13 @@ func c11RoundTrip(w *rt.W, y int64, m, d int) {
 	back := date.New(1234, 5, 6)
 	err = back.UnmarshalBinary(want)
 	w.Eval(1)
+	if err == nil { // decoding the same bytes again (into another receiver) must give the same date
+		again := date.New(4321, 1, 2)
+		if err2 := again.UnmarshalBinary(want); err2 != nil || !again.Equal(back) {
+			fail("repeated-decode-differs", fmt.Sprint(again, " err=", err2), back.String())
+		}
+		w.Eval(1)
+	}
 	if err != nil {
 		fail("own-encoding-rejected", "err="+err.Error(), "accepted")
 		return
@@ -161,6 +168,56 @@ func runC11(c *rt.Ctx) {
 		w.ClassN("calendar-roundtrip", hi-lo)
 	})
 	c.Exhaustive("all dates of years -400..9999: byte layout and round trip")
+
+	for _, loc := range hostileZones() {
+		loc := loc
+		withLocal(loc, func() {
+			c.Parallel("zones/"+loc.String(), 0, func(w *rt.W) {
+				zf, zl := ref.Ordinal(1990, 1, 1), ref.Ordinal(2030, 12, 31)
+				for o := zf + int64(w.Shard); o <= zl; o += int64(w.NShards) {
+					y, m, d := ref.Civil(o)
+					c11RoundTrip(w, y, m, d)
+					c11Decode(w, c11Encode(y, m, d))
+				}
+				w.ClassN("local-zone-sweep", 1)
+			})
+		})
+	}
+	c.Require("local-zone-sweep", int64(len(hostileZones())))
+
+	// call histories: years congruent modulo a power of two but with different leap status, decoded back to back
+	c.Parallel("year-aliasing-histories", 0, func(w *rt.W) {
+		bases := []int64{1900, 2000, 2100, 1996, 2001, 4, 100, 400, 0, -100, -4, -1900}
+		k := 0
+		for _, b := range bases {
+			for sh := 4; sh < 31; sh++ {
+				for _, sign := range []int64{1, -1} {
+					k++
+					if k%w.NShards != w.Shard {
+						continue
+					}
+					y2 := b + sign*(int64(1)<<uint(sh))
+					if y2 < -999999999 || y2 > 999999999 {
+						continue
+					}
+					for _, day := range []int{28, 29, 30} {
+						for rep := 0; rep < 2; rep++ {
+							c11Decode(w, c11Encode(b, 2, day))
+							c11Decode(w, c11Encode(y2, 2, day))
+							if ref.ValidYMD(y2, 2, day) {
+								c11RoundTrip(w, y2, 2, day)
+							}
+							if ref.ValidYMD(b, 2, day) {
+								c11RoundTrip(w, b, 2, day)
+							}
+						}
+					}
+					w.ClassN("year-aliasing-history", 1)
+				}
+			}
+		}
+	})
+	c.Require("year-aliasing-history", 100)
 
 	nSeeded := c.Pick(1000000, 10000000)
 	c.Parallel("far-years", 0, func(w *rt.W) {
